@@ -16,6 +16,7 @@
 import EasyMl.Lemmas.ViewMapping
 import EasyMl.Lemmas.ViewInjective
 import EasyMl.Lemmas.ViewWrite
+import EasyMl.Lemmas.ViewLayout
 
 namespace EasyMl.C02
 open EasyMl EasyMl.Spec EasyMl.View
@@ -123,6 +124,32 @@ theorem view_write_frame (v : View ν α) (h : v.WF) (hn : v.leafIds.Nodup) (idx
         exact hne ((View.resolves v h).2 hn idx' idx hin' hin (by rw [hc', hc, he]))
       simp [View.read, hss.2.1, hgc', lookup_setCell v hn c x hm hlt, hcc]
 
+/-- **Linear layouts.**  Whenever a view claims `DataLayout::Linear(order)`:
+    `order` is a reordering of the view's dimension names, so `TensorAccess::from_memory_order`
+    succeeds (`DimensionMappings::new` returns a mapping, the contract panic is unreachable); and
+    visiting the view through that access — i.e. in the claimed dimension order — resolves the
+    tuple at row-major position `k` to offset `k` of the single leaf the view is over, for all
+    `k` up to the leaf's element count: the walk is strictly increasing (`ravel_lt_of_lex`) and
+    contiguous, and spans the whole leaf.  Covers `Tensor`, `TensorRefMatrix`, `TensorRename`,
+    `TensorAccess`, `TensorTranspose` (with the repaired `map_linear_data_layout_to_transposed`,
+    fix B-12) in any composition; every other adaptor reports a non-linear layout. -/
+theorem layout_linear_increasing (v : View ν α) (h : v.WF) (order : List ν)
+    (hl : v.layout = .ok (.linear order)) :
+    (∃ m, DimensionMappings.new v.shape order = some m) ∧
+    (∀ m, DimensionMappings.new v.shape order = some m →
+      ∃ leaf data, v.leaves = [(leaf, data)] ∧
+        data.length = prod (lens (View.access v m).shape) ∧
+        (∀ idx, inBounds (lens (View.access v m).shape) idx = true →
+          (View.access v m).get idx = .ok (some (leaf, ravel (lens (View.access v m).shape) idx))) ∧
+        (∀ a b, inBounds (lens (View.access v m).shape) a = true →
+          inBounds (lens (View.access v m).shape) b = true → a < b →
+          ravel (lens (View.access v m).shape) a < ravel (lens (View.access v m).shape) b)) := by
+  obtain ⟨h1, h2⟩ := View.layout_memory_order v h order hl
+  refine ⟨h1, ?_⟩
+  intro m hm
+  obtain ⟨leaf, data, a, b, c⟩ := h2 m hm
+  exact ⟨leaf, data, a, b, c, fun x y hx hy hxy => ravel_lt_of_lex _ x y hx hy hxy⟩
+
 /-- **The constructors establish the invariant.**  Every validation of the model
     (`Tensor::from`, `TensorRefMatrix::with_names`, `TensorRange/TensorMask::from`, `from_all`,
     `from_strict`, `from_all_strict`, `TensorIndex::from`, `TensorExpansion::from` with its stable
@@ -155,5 +182,98 @@ theorem constructors_establish_wf :
       fun _ h => mkAccess_wf hs h, fun _ h => mkTranspose_wf hs h⟩
   · intro ss v hs
     exact ⟨fun _ hn h => mkStack_wf hs hn h, fun _ hsum h => mkChain_wf hs hsum h⟩
+
+/-! ### Non-vacuity: concrete compositions meet the hypotheses
+
+  (dimension names are numbers here: 0 = "a", 1 = "b", 2 = "c", 7 = "x", 8 = "s") -/
+
+section Examples
+
+/-- transpose(expand(select(reverse(mask(range(2×3×2 tensor)))))) — a depth-6 composition built
+    only with the constructors -/
+private def ex1 : Option (View Nat Nat) :=
+  (mkTensor 1 [(0, 2), (1, 3), (2, 2)] (List.range 12)).bind fun t =>
+  (t.mkRange [(1, ⟨1, 5⟩)]).bind fun r =>
+  (r.mkMask [(2, ⟨0, 1⟩)]).bind fun m =>
+  (m.mkReverse [0, 1]).bind fun rv =>
+  (rv.mkIndex [(0, 0)]).bind fun i =>
+  (i.mkExpansion [(0, 7)]).bind fun e => e.mkTranspose [2, 7, 1]
+
+/-- … it is accepted, has the expected shape, resolves `[0, 0, 0]` to offset 11 of leaf 1 and
+    rejects `[0, 0, usize::MAX]` and `[0, 2, 0]` -/
+example : (ex1.map fun v => (v.shape, v.specGet [0, 0, 0], v.specGet [0, 0, usizeMax], v.specGet [0, 2, 0])) =
+    some ([(7, 1), (1, 1), (2, 2)], some (1, 11), none, none) := by decide
+
+/-- … and it satisfies the hypothesis `WF` of the theorems above -/
+example : ∀ v, ex1 = some v → v.WF ∧ v.leafIds.Nodup := by
+  intro v hv
+  have hids : (ex1.map fun v => v.leafIds) = some [1] := by decide
+  rw [hv] at hids
+  simp only [Option.map_some, Option.some.injEq] at hids
+  refine ⟨?_, by rw [hids]; decide⟩
+  simp only [ex1, Option.bind_eq_some_iff] at hv
+  obtain ⟨t, ht, r, hr, m, hm, rv, hrv, i, hi, e, he, hv⟩ := hv
+  exact mkTranspose_wf (mkExpansion_wf (mkIndex_wf (mkReverse_wf (mkMask_wf (mkRange_wf
+    (mkTensor_wf ht (by decide)) hr) hm) hrv) hi) he) hv
+
+/-- a chain of a 2×2 and a 2×1 tensor along dimension 1, stacked with a copy of itself built from
+    two other leaves: accepted, well formed, distinct leaves -/
+private def ex2 : Option (View Nat Nat) :=
+  (mkTensor 1 [(0, 2), (1, 2)] (List.range 4)).bind fun t1 =>
+  (mkTensor 2 [(0, 2), (1, 1)] (List.range 2)).bind fun t2 =>
+  (mkTensor 3 [(0, 2), (1, 2)] (List.range 4)).bind fun t3 =>
+  (mkTensor 4 [(0, 2), (1, 1)] (List.range 2)).bind fun t4 =>
+  (mkChain [t1, t2] 1).bind fun c1 => (mkChain [t3, t4] 1).bind fun c2 => mkStack [c1, c2] (0, 8)
+
+example : (ex2.map fun v => (v.shape, v.leafIds, v.specGet [1, 1, 2], v.specGet [0, 0, 3])) =
+    some ([(8, 2), (0, 2), (1, 3)], [1, 2, 3, 4], some (4, 1), none) := by decide
+
+example : ∀ v, ex2 = some v → v.WF := by
+  intro v hv
+  simp only [ex2, Option.bind_eq_some_iff] at hv
+  obtain ⟨t1, h1, t2, h2, t3, h3, t4, h4, c1, hc1, c2, hc2, hv⟩ := hv
+  have w1 := mkTensor_wf h1 (by decide)
+  have w2 := mkTensor_wf h2 (by decide)
+  have w3 := mkTensor_wf h3 (by decide)
+  have w4 := mkTensor_wf h4 (by decide)
+  -- the size side condition of chaining: tiny sums
+  have s1 : ∀ a, (chainLens (shapes [t1, t2]) a).sum ≤ usizeMax := by
+    simp only [mkTensor, Tensor.tryFrom] at h1 h2
+    split at h1 <;> simp at h1
+    split at h2 <;> simp at h2
+    subst h1 h2
+    intro a
+    match a with
+    | 0 => decide
+    | 1 => decide
+    | (n + 2) => simp [chainLens, shapes, View.shape, usizeMax]
+  have s2 : ∀ a, (chainLens (shapes [t3, t4]) a).sum ≤ usizeMax := by
+    simp only [mkTensor, Tensor.tryFrom] at h3 h4
+    split at h3 <;> simp at h3
+    split at h4 <;> simp at h4
+    subst h3 h4
+    intro a
+    match a with
+    | 0 => decide
+    | 1 => decide
+    | (n + 2) => simp [chainLens, shapes, View.shape, usizeMax]
+  have wc1 := mkChain_wf (ss := [t1, t2]) (by simp [w1, w2]) s1 hc1
+  have wc2 := mkChain_wf (ss := [t3, t4]) (by simp [w3, w4]) s2 hc2
+  exact mkStack_wf (ss := [c1, c2]) (by simp [wc1, wc2]) (by simp [usizeMax]) hv
+
+/-- a transposition of a reordering of a tensor (the shape of defect #12): the repaired layout is
+    `[2, 1, 0]`-named `c, v, column`, and its memory-order access is accepted -/
+example :
+    ((mkTensor 1 [(0, 2), (1, 2), (2, 4)] (List.range 16)).bind fun t =>
+      (t.mkAccess [2, 0, 1]).bind fun a => (a.mkTranspose [0, 2, 1]).map fun v =>
+        (v.shape, match v.layout with | .ok l => some l | .panic _ => none)) =
+    some ([(2, 2), (0, 4), (1, 2)], some (.linear [2, 1, 0])) := by decide
+
+/-- the legacy formula (unchanged tree) claims `[1, 0, 2]` for the same view: defect #12 -/
+example : mapLinearDataLayoutToTransposedLegacy
+    { sourceToRequested := [1, 0, 2], requestedToSource := [1, 0, 2] } [0, 1, 2] = [1, 0, 2] := by
+  decide
+
+end Examples
 
 end EasyMl.C02
